@@ -26,11 +26,15 @@
 (*        ListDone: ok /\ ~weird => items is a permutation of Expected;    *)
 (*        ~ok only for one of the reasons of (c),(d)                       *)
 (*  (b) "each obtained from the cluster named by its UUID prefix"          *)
-(*        Call: every u in batch is well-formed and Home(u) = c            *)
+(*        ListDone: every item handed over was returned by the backend of  *)
+(*        its home cluster (returned[Home(u)]).  What a backend is ASKED   *)
+(*        for is not constrained (sending the whole UUID list to every     *)
+(*        involved cluster would still obtain each object from its home;   *)
+(*        checks/C20.py reports a foreign UUID in a batch as drift).       *)
 (*  (c) "however each cluster pages its answer (short pages, one item at a *)
 (*      time, arbitrary order)"  = the class Good of responses: a          *)
-(*      duplicate-free list of objects that were asked for and exist,      *)
-(*      empty only if none of those asked for exists.  As long as every    *)
+(*      duplicate-free list of objects of that cluster that were asked for *)
+(*      and exist, empty only if none of those asked for exists there.  As long as every    *)
 (*      response is Good the request must succeed.                         *)
 (*  (d) "an involved cluster returns an error, is unknown, or answers      *)
 (*      without making progress => the whole request fails ... instead of  *)
@@ -62,9 +66,10 @@ VARIABLES cfg,      \* see above
           fault,    \* some backend answered with an error or without progress
           weird,    \* some backend answered outside every class the statement talks about
           anycall,  \* some Call event happened
+          returned, \* cluster -> objects its backend has returned so far
           done      \* "no" | "ok" | "err"
 
-cvars == <<cfg, ncalls, fault, weird, anycall, done>>
+cvars == <<cfg, ncalls, fault, weird, anycall, returned, done>>
 
 AllClusters == 0 .. 8
 
@@ -95,32 +100,34 @@ CInit(c) == /\ cfg = c
             /\ fault = FALSE
             /\ weird = FALSE
             /\ anycall = FALSE
+            /\ returned = [k \in AllClusters |-> {}]
             /\ done = "no"
 
 Call(c, batch) ==
     /\ c \in cfg.known
     /\ IF Federated
        THEN /\ ~MustReject                                            \* (e)
-            /\ \A u \in batch : Valid(u) /\ Home(u) = c               \* (b)
             /\ ncalls[c] < CallBound(c)                               \* (d) no looping
        ELSE c = cfg.local                                             \* (b)
     /\ ncalls' = [ncalls EXCEPT ![c] = @ + 1]
     /\ anycall' = TRUE
-    /\ UNCHANGED <<cfg, fault, weird, done>>
+    /\ UNCHANGED <<cfg, fault, weird, returned, done>>
 
 \* classes of answers (items is a sequence)
-Good(batch, items) ==
+Has(c, batch) == {u \in batch \cap cfg.exists : Home(u) = c}
+Good(c, batch, items) ==
     /\ Cardinality(Range(items)) = Len(items)
-    /\ Range(items) \subseteq (batch \cap cfg.exists)
-    /\ (Len(items) = 0) <=> (batch \cap cfg.exists = {})
+    /\ Range(items) \subseteq Has(c, batch)
+    /\ (Len(items) = 0) <=> (Has(c, batch) = {})
 NoProgress(batch, items) == Len(items) > 0 /\ Range(items) \cap batch = {}
 
 Resp(c, batch, err, items) ==
     /\ IF err \/ NoProgress(batch, items)
        THEN fault' = TRUE /\ UNCHANGED weird
-       ELSE IF Good(batch, items)
+       ELSE IF Good(c, batch, items)
        THEN UNCHANGED <<fault, weird>>
        ELSE weird' = TRUE /\ UNCHANGED fault
+    /\ returned' = IF err THEN returned ELSE [returned EXCEPT ![c] = @ \cup Range(items)]
     /\ UNCHANGED <<cfg, ncalls, anycall, done>>
 
 IsPermOf(items, S) == Len(items) = Cardinality(S) /\ Range(items) = S
@@ -130,11 +137,12 @@ ListDone(ok, items) ==
     /\ Federated =>
          /\ MustReject => ~ok                                         \* (e)
          /\ (fault \/ UnknownInvolved) => ~ok                         \* (d)
-         /\ (ok /\ ~weird) => IsPermOf(items, Expected)               \* (a)
+         /\ (ok /\ ~weird) => /\ IsPermOf(items, Expected)            \* (a)
+                             /\ \A u \in Expected : u \in returned[Home(u)]   \* (b)
          /\ ~ok => \/ MustReject \/ fault \/ UnknownInvolved \/ weird \* (a),(c)
                    \/ (MayReject /\ ~anycall)
     /\ done' = IF ok THEN "ok" ELSE "err"
-    /\ UNCHANGED <<cfg, ncalls, fault, weird, anycall>>
+    /\ UNCHANGED <<cfg, ncalls, fault, weird, anycall, returned>>
 
 TypeOK == /\ done \in {"no", "ok", "err"}
           /\ fault \in BOOLEAN /\ weird \in BOOLEAN /\ anycall \in BOOLEAN
